@@ -31,9 +31,18 @@ prop("C01", KERNELS_CODEC + [
 prop("C02", [H("H02_stored", quick={"wall": "150s", "shards": 16}, thorough={"wall": "900s", "shards": 16})])
 prop("C03", [H("H03_dv", common={"param": "maxDocs=2,maxSeq=4"}, quick={"wall": "150s", "shards": 16}, thorough={"wall": "900s", "shards": 16, "param": "maxDocs=3,maxSeq=4"})])
 prop("C04", [H("K7_footer"), H("H04_persist", quick={"wall": "150s", "shards": 16}, thorough={"wall": "900s", "shards": 16})])
-prop("C05", [H("H05_merge", common={"param": "maxDocs=1,tieReopen=1,maxOcc=3"}, quick={"wall": "150s", "shards": 16}, thorough={"wall": "1200s", "shards": 16, "param": "maxDocs=2,tieReopen=0,maxOcc=3"})])
+prop("C05", [H("H05_merge", common={"param": "maxDocs=1,tieReopen=1,maxOcc=1"}, quick={"wall": "150s", "shards": 12}, thorough={"wall": "1200s", "shards": 16, "param": "maxDocs=2,tieReopen=0,maxOcc=1"}),
+             # multi-valued stored fields (up to 3 occurrences with array positions), every field present and stored
+             H("H05_merge", common={"param": "maxDocs=1,tieReopen=1,maxOcc=3,storeAll=1,always=1"}, quick={"wall": "150s", "shards": 4}, thorough={"wall": "1200s", "shards": 16, "param": "maxDocs=2,tieReopen=1,maxOcc=3,storeAll=1,always=1"})])
 prop("C06", KERNELS_CODEC[2:] + [H("H06_merge", common={"param": "maxDocs=1,tieReopen=1"}, quick={"wall": "150s", "shards": 16}, thorough={"wall": "1200s", "shards": 16, "param": "maxDocs=2,tieReopen=0"})])
-prop("C07", [H("H07_seq", common={"param": "maxN=4,maxL=2,maxLocs=1,variants=3"}, quick={"wall": "150s", "shards": 16}, thorough={"wall": "1200s", "shards": 16, "param": "maxN=5,maxL=3,maxLocs=1,variants=3"})])
+prop("C07", [
+    # everything crossed on small lists
+    H("H07_seq", common={"param": "maxN=3,maxL=2,maxLocs=1,variants=3"}, quick={"wall": "150s", "shards": 16}, thorough={"wall": "1200s", "shards": 16, "param": "maxN=4,maxL=3,maxLocs=1,variants=3"}),
+    # longer lists (more chunks), no exclusion, all details: every postings set
+    H("H07_seq", common={"param": "fixN=4,maxL=2,maxLocs=0,variants=1,exceptNil=1,allFlags=1"}, quick={"wall": "150s", "shards": 8}, thorough={"wall": "1200s", "shards": 16, "param": "fixN=5,maxL=3,maxLocs=0,variants=1,exceptNil=1,allFlags=1"}),
+    # longer lists, every exclusion set, every document a hit
+    H("H07_seq", common={"param": "fixN=4,maxL=2,maxLocs=0,variants=1,allHits=1,allFlags=1"}, quick={"wall": "150s", "shards": 8}, thorough={"wall": "1200s", "shards": 16, "param": "fixN=5,maxL=3,maxLocs=0,variants=1,allHits=1,allFlags=1"}),
+])
 prop("C08", [H("H08_dict", common={"param": "provs=5"}, quick={"wall": "150s", "shards": 16}, thorough={"wall": "1200s", "shards": 16})])
 prop("C12", [H("H12_syn", common={"param": "maxSyn=2"}, quick={"wall": "150s", "shards": 16})])
 prop("C13", [H("H13_synmerge", common={"param": "maxSyn=1,emptyTerm=1"}, quick={"wall": "150s", "shards": 16}, thorough={"wall": "1200s", "shards": 16, "param": "maxSyn=2,emptyTerm=1,twoGen=1"})])
@@ -42,3 +51,8 @@ prop("C17", [H("H17_writeTo"), H("H17_persist"),
              H("H17_merge", common={"param": "mergeBuf=16"}, quick={"wall": "100s"}),
              H("H17_merge", common={"param": "mergeBuf=64"}, quick={"wall": "100s"})])
 prop("C18", [H("H18_cancel", quick={"wall": "100s"})])
+prop("C20", [H("H20_refs", common={"param": "maxOps=6"}, quick={"wall": "150s", "shards": 8}, thorough={"wall": "900s", "shards": 16, "param": "maxOps=8"}), H("H20_openfail")])
+prop("C10", [H("H10_seq", quick={"wall": "150s", "shards": 16}, thorough={"wall": "900s", "shards": 16})])
+prop("C09", [H("K1_chunksize"), H("K1_chunktable"), H("K7_footer"),
+             H("H09_layout", common={"param": "maxDocs=2"}, quick={"wall": "150s", "shards": 16}, thorough={"wall": "900s", "shards": 16}),
+             H("H09_layout_merged", quick={"wall": "150s", "shards": 16}, thorough={"wall": "900s", "shards": 16})])
